@@ -107,6 +107,13 @@ func (x *exec) beforeCallAsserts(s *State, key string, pos token.Pos) {
 			continue
 		}
 		pat := strings.TrimSpace(parts[0])
+		atSite := false
+		if strings.HasPrefix(pat, "@") {
+			// "@name": the expression is evaluated in the scope of the call site
+			// (locals of an enclosing loop body are visible)
+			atSite = true
+			pat = strings.TrimSpace(pat[1:])
+		}
 		if strings.HasPrefix(pat, "!") {
 			// "!name": every callee EXCEPT those whose key ends in name
 			if strings.HasSuffix(key, strings.TrimSpace(pat[1:])) {
@@ -116,7 +123,28 @@ func (x *exec) beforeCallAsserts(s *State, key string, pos token.Pos) {
 			continue
 		}
 		sub := &Clause{Kind: "assertcall", Text: strings.TrimSpace(parts[1]), Label: cl.Label, File: cl.File, Line: cl.Line}
-		g := x.evalClauseBool(sub, s, token.NoPos)
+		var g *Term
+		if atSite && pos.IsValid() {
+			inLoop := false
+			for _, l := range loopStmts(x.fn) {
+				if l.Pos() <= pos && pos <= l.End() {
+					inLoop = true
+				}
+			}
+			if !inLoop {
+				// a clause about the locals of a loop body does not concern the
+				// calls outside every loop
+				continue
+			}
+			if t, ok := x.evalClauseAt(sub, s, pos).(*Term); ok && t.Sort == Bool {
+				g = t
+			} else {
+				x.bindFail(sub, fmt.Errorf("clause is not boolean at the call site"))
+				g = x.e.C.True()
+			}
+		} else {
+			g = x.evalClauseBool(sub, s, token.NoPos)
+		}
 		lbl := cl.Label
 		if lbl == "" {
 			lbl = "assert"
